@@ -53,4 +53,64 @@ theorem computed_indices_in_range {n c : Nat} {g : G L D} {r : R L D} {P : List 
   have := nd.length_le_of_subset sub
   simpa using this
 
+/-! ### every call sequence (the total model, Core/Total.lean)
+
+`stepT` returns the state a call leaves behind even when it panics (what `catch_unwind` sees) and follows the code
+where it silently goes on without a free group slot. It agrees with `step` wherever `step` answers, and the
+correspondence check compares it with the real crate on every call *after* a panic too (soak mode of the harness). -/
+
+/-- the total step agrees with `step` wherever `step` answers — every theorem about `step` is one about `stepT` -/
+theorem total_agrees (g g' : G L D) (op : Op L D) (o : Out L D) (h : step g op = some (g', o)) :
+    stepT g op = (g', some o) := stepT_of_step g g' op o h
+
+/-- **for every call sequence** — valid or not, within the limits or beyond them, with any number of panics in it —
+    the state after the sequence satisfies the memory-safety invariant: both group tables have 16 entries, every group
+    tag is below 16, every recorded member and every stored edge target is below the capacity, no member list holds more
+    than 16 ids and no vertex more than `N` edges. So every index the code computes by itself is in range, always. -/
+theorem any_sequence_keeps_indices_in_range (n c : Nat) (hc : 0 < c) (ops : List (Op L D)) :
+    MS (runT (empty n c : G L D) ops).1 := ms_runT ops _ (ms_empty n c hc)
+
+/-- one call, from any state that satisfies it, panicking or not -/
+theorem any_call_keeps_indices_in_range (g : G L D) (h : MS g) (op : Op L D) : MS (stepT g op).1 := ms_stepT g h op
+
+/-- **where a call panics**: exactly at an id at or above the capacity, at an (N+1)-th label, at a 17-th member of a
+    member list, at a first read whose group counter is zero (reachable only after an earlier limit overrun: Theorem A
+    excludes it inside the limits), at an exhausted allocator — or at a tag of 16 or more, which `MS` excludes -/
+theorem panics_exactly_at (g : G L D) (op : Op L D) : (stepT g op).2 = none ↔ Panics g op := panics_iff g op
+
+/-- in every state any call sequence reaches, `put` panics only for an id beyond the capacity and `data` only for such
+    an id or a zero counter: never because of an index the code computed -/
+theorem put_data_panic_only_on_caller_ids (n c : Nat) (hc : 0 < c) (ops : List (Op L D)) (v : Nat) (d : D) :
+    let g := (runT (empty n c : G L D) ops).1
+    ((stepT g (.put v d)).2 = none ↔ cap g ≤ v) ∧
+    ((stepT g (.data v)).2 = none ↔ (cap g ≤ v ∨ (pers g v = .stored ∧ tag g v ≠ 1 ∧ cnt g (tag g v) = 0))) :=
+  panics_ms _ (any_sequence_keeps_indices_in_range n c hc ops) v d
+
+/-- a panicking call never changes the capacity, nor does any other -/
+theorem capacity_is_fixed (g : G L D) (op : Op L D) : cap (stepT g op).1 = cap g := cap_stepT g op
+
+/-! non-vacuity: a concrete abusive history (labels and data are `Nat`): the 17-th member panics after its tag was
+    written; the handle goes on; puts on the half-joined vertex are counted for the group, so the group dies at the
+    second read and leaves the half-joined vertex behind, tagged with a group it is not a member of; an id beyond the
+    capacity panics without a trace; the allocator still answers -/
+def abuse17 : List (Op Nat Nat) :=
+  [.add 0] ++ (List.range 16).flatMap (fun i => [Op.add (i + 1), Op.bind (i + 1) i 0]) ++
+  [.put 16 7, .put 3 9, .data 16, .data 3, .put 99 1, .nextId, .keys]
+
+/-- outputs as numbers (0 = panic) -/
+def code : Option (Out Nat Nat) → List Nat
+  | none => [0]
+  | some .unit => [1]
+  | some (.data none) => [2]
+  | some (.data (some d)) => [3, d]
+  | some (.kid _) => [4]
+  | some (.kids _) => [5]
+  | some (.keys ks) => 6 :: ks
+  | some (.id i) => [7, i]
+
+example : (((runT (empty 2 20 : G Nat Nat) abuse17).2.drop 32).map code) =
+      [[0], [1], [1], [3, 7], [3, 9], [0], [7, 0], [6, 16]] ∧
+    tag (runT (empty 2 20 : G Nat Nat) abuse17).1 16 = 2 ∧ mem (runT (empty 2 20 : G Nat Nat) abuse17).1 2 = [] := by
+  decide +kernel
+
 end Props.C07
